@@ -149,6 +149,18 @@ def getProp (w : World) (o : Target) (k : Key) : Option Val :=
   | .cell r c => (w.cell? r c).bind (·.props.get k)
   | .copy n => (w.copies[n]?).bind (·.props.get k)
 
+/-- the property chain an owner stores (`[]` for an owner that does not exist) -/
+def ownerChain (w : World) (o : Target) : Chain :=
+  match o with
+  | .table t => (w.table t).props
+  | .column t n => ((w.column? t n).map (·.props)).getD []
+  | .row r => (w.row r).props
+  | .cell r c => ((w.cell? r c).map (·.props)).getD []
+  | .copy n => ((w.copies[n]?).map (·.props)).getD []
+
+/-- number of links the owner stores: what the harness's `chainlen` walks by reflection -/
+def chainLen (w : World) (o : Target) : Nat := (w.ownerChain o).length
+
 def setProp (w : World) (o : Target) (k : Key) (v : Option Val) : World :=
   match o with
   | .table t => w.modTable t (fun tb => { tb with props := tb.props.set k v })
